@@ -49,7 +49,7 @@ def findings():
 def sensitivity():
     out = ['**Independently seeded changes** (`seeded/<id>/`, written by sub-agents that saw only the property text):\n',
            '| seeded change | summary | needs | verdict of the registered check(s) |', '|---|---|---|---|']
-    for d in sorted(glob.glob(os.path.join(R, 'seeded', 'C*-*'))):
+    for d in sorted(glob.glob(os.path.join(R, 'seeded', '*C*-*'))):
         m = load(os.path.join(d, 'meta.json'), {})
         verdicts = []
         for c in m.get('confirmed', {}).get('checks_run', []):
@@ -70,6 +70,32 @@ def sensitivity():
         summ = str(m.get('summary', '')).replace('|', '\\|').replace('\n', ' ')[:300]
         needs = str(m.get('needs', '')).replace('|', '\\|').replace('\n', ' ')[:300]
         out.append(f"| {os.path.basename(d)} | {summ} | {needs} | {'; '.join(verdicts)} |")
+    # summary counts (own property's check only)
+    import collections
+    first = collections.Counter(); final = collections.Counter(); n = 0
+    for d in sorted(glob.glob(os.path.join(R, 'seeded', '*C*-*'))):
+        m = load(os.path.join(d, 'meta.json'), {})
+        prop = m.get('property') or os.path.basename(d).split('-')[0].replace('R2', '')
+        cur = {c.split(':rc=')[0]: c.split(':rc=')[1] for c in m.get('confirmed', {}).get('checks_run', [])}
+        fv = {c.split(':rc=')[0]: c.split(':rc=')[1] for c in (m.get('first_verdict') or m.get('confirmed', {}).get('checks_run', []))}
+        if prop not in cur:
+            continue
+        n += 1
+        def cls(rc, which):
+            if rc == '0':
+                return 'missed'
+            if rc != '1':
+                return 'infrastructure error'
+            try:
+                log = open(os.path.join(d, f'check_{prop}.log')).read()
+            except Exception:
+                log = ''
+            return 'caught, no failing input' if (which == 'final' and 'no-failing-input-found' in log) else 'caught'
+        first[cls(fv.get(prop, cur[prop]), 'first')] += 1
+        final[cls(cur[prop], 'final')] += 1
+    out.insert(0, f"**Summary.** {n} confirmed seeded changes (two rounds; the second round was asked for subtler triggers and given the first "
+                  f"round's summaries to avoid).  First run against the registered check: {dict(first)}.  After strengthening the checks "
+                  f"(generators/oracles/theorems extended, never loosened): {dict(final)}.\n")
     out.append('\n**Own mutation catalogue** (`tools/mutations/`, incl. the inverse of every `fix:` commit): ' +
                'which stage caught each is tabulated in the `docs/Cnn.md` of its property; counts per property are in the status table above.')
     return '\n'.join(out)
